@@ -44,6 +44,12 @@ def main():
         d0 = sh(["/venv/bin/python", demo, wt], timeout=300)
         meta["demo_without_change_exit"] = d0.returncode
         a = sh(["git", "-C", wt, "apply", patch])
+        if a.returncode:
+            # written against an earlier repository commit: let git merge it (the blobs it names are in the history)
+            a = sh(["git", "-C", wt, "apply", "--3way", patch])
+            if a.returncode == 0:
+                sh(["git", "-C", wt, "reset", "-q"])
+                meta["applied_with_3way_merge"] = True
         meta["patch_applies"] = a.returncode == 0
         if a.returncode:
             print("patch does not apply:", a.stderr[:300])
